@@ -100,6 +100,13 @@ CLAIMED = {
              "all points), orientation test, voxel grids (closed-box membership of exact samples) and active control point lookup.",
         technique="TLA+ spec (Planar, MC_C20, MC_C20b) model-checked exhaustively with TLC; spec->code replay of every transition",
         design="4 C20"),
+    "C16": dict(
+        text="For every non-singular 2x2 matrix over -2..2, a 3x3 family and hand-picked 4x4/5x5 matrices (with and without needed row swaps, "
+             "diagonally dominant, zero leading minors) TLC computes the exact determinant, inverse and solutions and checks the defining "
+             "equations; all call sequences up to length 2-3 over identity/pivot/inverse/determinant/lu_factor are replayed in one "
+             "interpreter (history independence); vector/matrix helpers as a table.",
+        technique="TLA+ spec (Linalg incl. matrix_pivot transcription, MC_C16) model-checked exhaustively with TLC; spec->code replay",
+        design="4 C16"),
 }
 
 PENDING_REASON = "check not built yet (work in progress, see DESIGN.md section 8 build order)"
